@@ -120,8 +120,50 @@ pub fn check(cfg: &Cfg, rep: Option<&mut Report>) -> Result<u64, String> {
     }
 }
 
+/// depth reached by the REAL `nuts::draw` with a target integration time on a flat mock orbit that never (always) U-turns
+fn window_depth(target_time: f64, step: f64, mindepth: u64, maxdepth: u64, always_turn: bool, tape_seed: u64) -> Result<u64, String> {
+    use crate::mock::*;
+    use nuts_rs::verif_hooks::{new_acceptance_collector, nuts_draw, take_merge_trace, NutsOptions};
+    let mut math: MMath = CpuMath::new(Dummy(1));
+    let orbit = Orbit { energy: Box::new(|_| 0.0), turning: Box::new(move |_, _| always_turn), fault: Default::default() };
+    let mut ham = MockHam::new(&mut math, orbit, 0);
+    ham.step_size = step;
+    let mut r = Sm::new(tape_seed, "C03-window-tape", 0);
+    let mut rng = ScriptRng::new((0..4096).map(|_| r.next()).collect());
+    let mut coll = new_acceptance_collector();
+    let mut init = ham.start_state(&mut math);
+    let _ = take_merge_trace();
+    let opt = NutsOptions { maxdepth, mindepth, check_turning: true, store_divergences: false, target_integration_time: Some(target_time), extra_doublings: 0, max_energy_error: 1000.0 };
+    let res = std::panic::catch_unwind(std::panic::AssertUnwindSafe(|| nuts_draw(&mut math, &mut init, &mut rng, &mut ham, &opt, &mut coll)));
+    let _ = take_merge_trace();
+    match res { Ok(Ok((_s, info))) => Ok(info.depth), Ok(Err(e)) => Err(format!("error: {e}")), Err(_) => Err("panic".into()) }
+}
+
 pub fn main(tier: &str, seed: u64, outdir: &str) {
     let mut rep = Report::new("C03");
+    let mut cases = Cases::new();
+    // ---- depth window derived from target_integration_time (mock orbits, real nuts::draw)
+    let nw = if tier == "thorough" { 6000 } else { 300 };
+    for case in 0..nw {
+        let mut r = Sm::new(seed, "C03-window", case);
+        let maxdepth = 1 + r.below(9);
+        let mindepth = if case % 3 == 0 { r.below(maxdepth + 1) } else { 0 };
+        let step = r.log_uniform(0.01, 3.0);
+        // target times below one step, around powers of two of the step, and far beyond 2^maxdepth steps
+        let target = match case % 4 { 0 => step * r.range(0.01, 1.2), 1 => step * (1u64 << r.below(10)) as f64 * *r.pick(&[0.999, 1.0, 1.001]), 2 => step * r.log_uniform(1.0, 5000.0), _ => r.log_uniform(0.05, 300.0) };
+        rep.evaluations += 2;
+        let replay = json!({"kind": "window", "target": target, "step": step, "mindepth": mindepth, "maxdepth": maxdepth, "seed": seed, "case": case});
+        match (window_depth(target, step, mindepth, maxdepth, false, seed ^ case), window_depth(target, step, mindepth, maxdepth, true, seed ^ case)) {
+            (Ok(dn), Ok(da)) => {
+                if dn > maxdepth || da > maxdepth { rep.violation("c03.window_exceeds_maxdepth", &format!("target_integration_time {target} with step {step}: depth {} exceeds maxdepth {maxdepth}", dn.max(da)), replay); }
+                else if maxdepth >= 1 && dn < 1 { rep.violation("c03.window_no_step", &format!("target_integration_time {target} with step {step}: a never-turning trajectory stopped at depth {dn}"), replay); }
+                rep.nontrivial += (dn < maxdepth) as u64;
+                cases.line(&LineB::new("window").u(case).f(target).f(step).u(mindepth).u(maxdepth).u(dn).u(da).0);
+            }
+            (a, b) => rep.violation("c03.window_error", &format!("nuts::draw failed with target_integration_time {target}, step {step}: {:?} / {:?}", a.err(), b.err()), replay),
+        }
+    }
+    cases.write(&format!("{outdir}/C03.cases")).unwrap();
     let n = if tier == "thorough" { 3000 } else { 80 };
     for case in 0..n {
         let mut r = Sm::new(seed, "C03", case);
@@ -145,6 +187,13 @@ pub fn main(tier: &str, seed: u64, outdir: &str) {
 }
 
 pub fn replay(v: &serde_json::Value) -> bool {
+    if v["kind"] == "window" {
+        let (t, e, lo, hi) = (v["target"].as_f64().unwrap(), v["step"].as_f64().unwrap(), v["mindepth"].as_u64().unwrap(), v["maxdepth"].as_u64().unwrap());
+        let tape = v["seed"].as_u64().unwrap_or(0) ^ v["case"].as_u64().unwrap_or(0);
+        let (a, b) = (window_depth(t, e, lo, hi, false, tape), window_depth(t, e, lo, hi, true, tape));
+        println!("replay: never-turning depth {:?}, always-turning depth {:?}, maxdepth {hi}", a, b);
+        return match (a, b) { (Ok(x), Ok(y)) => x > hi || y > hi || (hi >= 1 && x < 1), _ => true };
+    }
     let cfg = Cfg::from_json(&v["cfg"]);
     let r = check(&cfg, None);
     println!("replay: {:?}", r);
